@@ -339,6 +339,15 @@ def build_env(case, tmp):
         if take is not None:
             kw["take"] = take
         return ctor(**kw)
+    if case.get("pos_min"):
+        # phase 5: the shortest positional call (trailing Nones left out: the constructor's defaults take their place), or
+        # ("mixed") the source positionally and the rest by keyword
+        args = [source, lc, lt, take]
+        if case["pos_min"] == "mixed":
+            return ctor(source, **{k: v for k, v in (("label_col", lc), ("label_type", lt), ("take", take)) if v is not None})
+        while len(args) > 1 and args[-1] is None:
+            args.pop()
+        return ctor(*args)
     return ctor(source, lc, lt, take)
 
 
@@ -926,7 +935,9 @@ def model_request(case, probes):
     exs_all = examples(case)
     take = case.get("take")
     tipe = (case.get("pre") or {}).get("tipe")
-    req = {"given": lt.lower() if lt else None, "tipe": tipe.lower() if tipe else None, "take": None, "probes": [probe_json(p) for p in probes]}
+    # the label-type literal goes to the driver as the caller wrote it ("C", "m" ...): the model's parseLType is `.lower()`
+    raw = lambda t: (t if t in LT_LITERALS else t.lower()) if t else None
+    req = {"given": raw(lt), "tipe": raw(tipe), "take": None, "probes": [probe_json(p) for p in probes]}
     treq = text_request(case, probes, req)
     if treq is not None:
         return treq
@@ -983,7 +994,7 @@ def model_obs(ans, op):
         else:
             ctx = ["D", sorted(([from_val(k), from_label(v)] for k, v in it["context"]), key=lambda p: json.dumps(p[0]))]
         res = lambda r: ["v", r["v"][0], r["v"][1]] if "v" in r else ["err", r["err"]]
-        out.append({"ctx": ctx, "ctx_err": None, "actions": [from_val(a) for a in it["actions"]],
+        out.append({"ctx": ctx, "ctx_err": None, "actions": [from_val(a) for a in it["actions"]], "cls": it.get("reward_class"),
                     "on_actions": [res(r) for r in it["on_actions"]], "on_probes": [res(r) for r in it["on_probes"]]})
     return {"ints": out}
 
@@ -1020,6 +1031,10 @@ def compare(impl, model, skip, readno):
         ya = sorted(json.dumps(vkey(v)) for v in y["actions"])
         if "actions" not in skip and xa != ya:
             return ("A:actions", "read %d interaction %d: actions %s, model %s" % (readno, i, short(x["actions"]), short(y["actions"])))
+        # the reward class the dispatch of read() reaches (Model: rewardClassOf / Reward.className; theorem reward_class_dispatch)
+        xc = (x.get("copies") or {}).get("cls")
+        if y.get("cls") and xc and xc != y["cls"]:
+            return ("A:reward-class", "read %d interaction %d: the reward object is a %s, model %s" % (readno, i, xc, y["cls"]))
         if "rewards" in skip or "rewards%d" % i in skip:
             continue
         if "on_actions" not in skip and "actions" not in skip:
@@ -1519,6 +1534,12 @@ def gen_case(rng, tier, edge_p=0.07):
         case = getattr(g, k)(tier)
     if case.get("via") == "env" and has_categorical(case):
         case["via"] = "sim"
+    if case["src"] != "xy" and not case.get("kw"):
+        # how a positional call is written is decided from the case itself (no draw from the stream: the other cases stay as they were)
+        import zlib
+        h = zlib.crc32(json.dumps(case, sort_keys=True).encode()) % 4
+        if h < 2:
+            case["pos_min"] = "short" if h == 0 else "mixed"
     return case
 
 
@@ -1566,6 +1587,13 @@ def snippet_for(case):
             args = "source=source" + "".join(", %s=%r" % (k, v) for k, v in (("label_col", lc), ("label_type", lt), ("take", case.get("take"))) if v is not None)
         else:
             args = "source, %r, %r, %r" % (lc, lt, case.get("take"))
+            if case.get("pos_min") == "mixed":
+                args = "source" + "".join(", %s=%r" % (k, v) for k, v in (("label_col", lc), ("label_type", lt), ("take", case.get("take"))) if v is not None)
+            elif case.get("pos_min"):
+                vals = [lc, lt, case.get("take")]
+                while vals and vals[-1] is None:
+                    vals.pop()
+                args = "source" + "".join(", %r" % (v,) for v in vals)
     lines.append("env = %s(%s)%s" % (ctor, args, tail))
     if case.get("abandon"):
         lines += ["it = iter(env.read())", "for _ in range(%d): next(it, None)   # a first read, abandoned early" % case["abandon"], "it.close(); del it"]
@@ -1597,6 +1625,235 @@ def snippet_for(case):
 
 
 # ------------------------------------------------------------------ the property
+# ------------------------------------------------------------------ translator step (phase 5)
+ACTION_FEATURES = ["sorted", "set", "chain", "delist", "levels", "present"]
+LT_LITERALS = ["r", "c", "m", "R", "C", "M"]
+
+
+def extract_supervised(repo):
+    """`SupervisedSimulation.__init__` / `.read` of the CURRENT source as tables (Python's ast, nothing is imported or run):
+    the argument tables of both overloads (name, position, default), the stages joined behind the source, where the label type
+    comes from (explicit / tipe / inferred, the numeric types and the two literals of the inference), and - by walking read()'s
+    if-chain for every label-type literal (either case) x "first label is a Categorical" - which reward constructor and which
+    action computation is reached, and what the interactions are built from"""
+    import ast
+    import re
+    path = os.path.join(repo, "coba", "environments", "supervised.py")
+    with open(path, encoding="utf-8") as f:
+        tree = ast.parse(f.read())
+    cls = next(n for n in tree.body if isinstance(n, ast.ClassDef) and n.name == "SupervisedSimulation")
+    fns = [n for n in cls.body if isinstance(n, ast.FunctionDef)]
+    init = [f for f in fns if f.name == "__init__" and not f.decorator_list][-1]
+    read = next(f for f in fns if f.name == "read")
+    un = ast.unparse
+    is_none = lambda e: isinstance(e, ast.Constant) and e.value is None
+
+    # ---- __init__: argument tables and joined stages
+    def args_at(e):
+        if isinstance(e, ast.Subscript) and isinstance(e.value, ast.Name) and e.value.id == "args" and isinstance(e.slice, ast.Constant):
+            return e.slice.value
+        return None
+
+    def arg_row(st):
+        if not (isinstance(st, ast.Assign) and len(st.targets) == 1 and isinstance(st.targets[0], ast.Name)):
+            return None
+        name, v = st.targets[0].id, st.value
+        if isinstance(v, ast.IfExp):
+            i = args_at(v.body)
+            if i is None:
+                return None
+            t = v.test
+            if not (isinstance(t, ast.Compare) and len(t.ops) == 1 and isinstance(t.ops[0], ast.Gt) and un(t.left) == "len(args)"
+                    and isinstance(t.comparators[0], ast.Constant) and t.comparators[0].value == i):
+                raise ValueError("argument %s: presence test %s does not fit args[%s]" % (name, un(t), i))
+            o = v.orelse
+            if isinstance(o, ast.Call) and un(o.func) == "kwargs.get" and o.args and isinstance(o.args[0], ast.Constant):
+                kw, d = o.args[0].value, (repr(ast.literal_eval(o.args[1])) if len(o.args) > 1 else "None")
+            elif isinstance(o, ast.Subscript) and un(o.value) == "kwargs" and isinstance(o.slice, ast.Constant):
+                kw, d = o.slice.value, "<required>"
+            else:
+                raise ValueError("argument %s: unexpected keyword fallback %s" % (name, un(o)))
+            return (kw if kw == name else "%s->%s" % (kw, name), i, d)
+        i = args_at(v)
+        return (name, i, "<required>") if i is not None else None
+
+    top = next(st for st in init.body if isinstance(st, ast.If))
+    source_args = [r for r in map(arg_row, top.body) if r]
+    xy_args = [r for r in map(arg_row, top.orelse) if r]
+    joins = []
+    for st in top.body:
+        if (isinstance(st, ast.If) and isinstance(st.test, ast.Compare) and len(st.test.ops) == 1 and isinstance(st.test.ops[0], ast.IsNot)
+                and isinstance(st.test.left, ast.Name) and is_none(st.test.comparators[0])):
+            for b in st.body:
+                if (isinstance(b, ast.Assign) and un(b.targets[0]) == "source" and isinstance(b.value, ast.Call) and un(b.value.func) == "Pipes.join"
+                        and len(b.value.args) == 2 and un(b.value.args[0]) == "source" and isinstance(b.value.args[1], ast.Call)):
+                    # recorded: the guarding argument, the class, its first argument (the order of the two joins and the `tipe` handed to
+                    # LabelRows do not change what read() yields: Reservoir selects by position, `self._label_type or first.tipe`)
+                    c = b.value.args[1]
+                    joins.append((st.test.left.id, un(c.func), [un(a) for a in c.args[:1]]))
+    joins.sort(key=lambda j: j[1])
+    source_args.sort(key=lambda r: r[1])
+    xy_args.sort(key=lambda r: r[1])
+
+    # ---- read: where the label type comes from
+    def type_sources(value):
+        if not (isinstance(value, ast.BoolOp) and isinstance(value.op, ast.Or)):
+            raise ValueError("label_type is not an `or` chain: %s" % un(value))
+        out, inf = [], None
+        for e in value.values:
+            if un(e) == "self._label_type":
+                out.append("explicit")
+            elif un(e) == "first_label_type":
+                out.append("tipe")
+            elif (isinstance(e, ast.IfExp) and isinstance(e.test, ast.Call) and un(e.test.func) == "isinstance" and un(e.test.args[0]) == "first_label"
+                  and isinstance(e.body, ast.Constant) and isinstance(e.orelse, ast.Constant)):
+                ts = e.test.args[1]
+                inf = (sorted(set(un(x) for x in (ts.elts if isinstance(ts, ast.Tuple) else [ts]))), e.body.value, e.orelse.value)
+                out.append("inferred")
+            else:
+                raise ValueError("unknown label-type source %s" % un(e))
+        return out, inf
+
+    sel = None
+    for st in ast.walk(read):
+        if isinstance(st, ast.If) and isinstance(st.test, ast.Compare) and un(st.test.left) == "first_label_type" and is_none(st.test.comparators[0]):
+            sel = st
+            break
+    if sel is None:
+        raise ValueError("the `first_label_type is None` selection was not found")
+    lt_assign = lambda stmts: next(s.value for s in stmts if isinstance(s, ast.Assign) and un(s.targets[0]) == "label_type")
+    a, b = lt_assign(sel.body), lt_assign(sel.orelse)
+    if isinstance(sel.test.ops[0], ast.IsNot):
+        a, b = b, a
+    no_tipe, inf = type_sources(a)
+    with_tipe, inf2 = type_sources(b)
+    inf = inf or inf2
+    if inf is None:
+        raise ValueError("no inference expression found")
+
+    # ---- read: the if-chain, walked for one label-type literal and one kind of first label
+    def touches(node):
+        return any((isinstance(x, ast.Assign) and un(x.targets[0]) in ("reward", "actions")) or (isinstance(x, ast.FunctionDef) and x.name == "reward") for x in ast.walk(node))
+
+    def walk_for(lit, cat):
+        env = {"lt": lit}
+        got = {"reward": None, "feats": set()}
+
+        def ev(t):
+            if isinstance(t, ast.Compare) and len(t.ops) == 1 and isinstance(t.ops[0], (ast.Eq, ast.NotEq)) and un(t.left) == "label_type" \
+                    and isinstance(t.comparators[0], ast.Constant):
+                r = env["lt"] == t.comparators[0].value
+                return r if isinstance(t.ops[0], ast.Eq) else not r
+            if isinstance(t, ast.Call) and un(t.func) == "isinstance" and un(t.args[0]) == "first_label" and un(t.args[1]) == "Categorical":
+                return cat
+            if isinstance(t, ast.UnaryOp) and isinstance(t.op, ast.Not):
+                r = ev(t.operand)
+                return None if r is None else not r
+            if isinstance(t, ast.BoolOp):
+                rs = [ev(x) for x in t.values]
+                if isinstance(t.op, ast.And):
+                    return False if False in rs else (None if None in rs else True)
+                return True if True in rs else (None if None in rs else False)
+            return None
+
+        def ctor_from(arg, body):
+            """`lambda l: Cls(l)` / `lambda l: Cls(f(l))` (or the same as a one-line def) -> "Cls" / "Cls(f)" """
+            if isinstance(body, ast.Call) and isinstance(body.func, ast.Name) and len(body.args) == 1 and not body.keywords:
+                inner = body.args[0]
+                if isinstance(inner, ast.Call) and isinstance(inner.func, ast.Name) and len(inner.args) == 1 and un(inner.args[0]) == arg:
+                    return "%s(%s)" % (body.func.id, inner.func.id)
+                if un(inner) == arg:
+                    return body.func.id
+            raise ValueError("reward function %s" % un(body))
+
+        def walk(stmts):
+            for st in stmts:
+                if isinstance(st, ast.FunctionDef) and st.name == "reward" and len(st.args.args) == 1 and len(st.body) == 1 and isinstance(st.body[0], ast.Return):
+                    got["reward"] = ctor_from(st.args.args[0].arg, st.body[0].value)
+                elif isinstance(st, ast.If):
+                    r = ev(st.test)
+                    if r is None:
+                        if st is not sel and touches(st):
+                            raise ValueError("cannot decide `%s` for label_type=%r" % (un(st.test), lit))
+                        continue
+                    walk(st.body if r else st.orelse)
+                elif isinstance(st, ast.Assign) and len(st.targets) == 1:
+                    tg, v = un(st.targets[0]), st.value
+                    if tg == "label_type" and isinstance(v, ast.Call) and isinstance(v.func, ast.Attribute) and un(v.func.value) == "label_type" and not v.args:
+                        if v.func.attr == "lower":
+                            env["lt"] = env["lt"].lower()
+                        elif v.func.attr == "upper":
+                            env["lt"] = env["lt"].upper()
+                        else:
+                            raise ValueError("label_type.%s()" % v.func.attr)
+                    elif tg == "reward":
+                        if isinstance(v, ast.Name):
+                            got["reward"] = v.id
+                        elif isinstance(v, ast.Lambda) and len(v.args.args) == 1:
+                            got["reward"] = ctor_from(v.args.args[0].arg, v.body)
+                        else:
+                            raise ValueError("reward = %s" % un(v))
+                    elif tg == "actions":
+                        if isinstance(v, ast.List) and not v.elts:
+                            got["feats"] = {"empty"}
+                        else:
+                            names = {x.id for x in ast.walk(v) if isinstance(x, ast.Name)} | {x.attr for x in ast.walk(v) if isinstance(x, ast.Attribute)}
+                            keep = set() if "actions" not in names else set(got["feats"]) - {"empty"}
+                            got["feats"] = keep | {n for n in ACTION_FEATURES if n in names}
+        walk(read.body)
+        if got["reward"] is None:
+            raise ValueError("no reward constructor reached for label_type=%r" % lit)
+        kind = "empty" if got["feats"] == {"empty"} else "&".join(n for n in ACTION_FEATURES if n in got["feats"])
+        return (lit, cat, got["reward"], kind)
+
+    dispatch = [walk_for(lit, cat) for lit in LT_LITERALS for cat in (False, True)]
+
+    # ---- read: what an interaction is built from
+    ys = set()
+    for st in ast.walk(read):
+        if isinstance(st, ast.For) and isinstance(st.target, ast.Name):
+            for y in ast.walk(st):
+                if isinstance(y, ast.Yield) and isinstance(y.value, ast.Dict):
+                    for k, v in zip(y.value.keys, y.value.values):
+                        ys.add((ast.literal_eval(k), re.sub(r"\b%s\b" % re.escape(st.target.id), "row", un(v))))
+    return {"source_args": source_args, "xy_args": xy_args, "joins": joins, "no_tipe": no_tipe, "with_tipe": with_tipe,
+            "numeric": inf[0], "then": inf[1], "else": inf[2], "dispatch": dispatch, "yields": sorted(ys)}
+
+
+def supervised_lean(t):
+    q = lambda x: json.dumps(x)
+    lst = lambda xs: "[%s]" % ", ".join(xs)
+    b = lambda x: "true" if x else "false"
+    return ("-- GENERATED by harness/props/c14.py (pre_build) from coba/environments/supervised.py on every run; do not edit.\n"
+            "namespace Coba.Generated.C14\n"
+            "def extracted : Bool := true\n"
+            "def dispatch : List (String × Bool × String × String) := [\n  %s]\n"
+            "def inferNumeric : List String := %s\n"
+            "def inferThen : String := %s\n"
+            "def inferElse : String := %s\n"
+            "def sourcesNoTipe : List String := %s\n"
+            "def sourcesTipe : List String := %s\n"
+            "def sourceArgs : List (String × Nat × String) := %s\n"
+            "def xyArgs : List (String × Nat × String) := %s\n"
+            "def joins : List (String × String × List String) := %s\n"
+            "def yields : List (String × String) := %s\n"
+            "end Coba.Generated.C14\n"
+            % (",\n  ".join("(%s, %s, %s, %s)" % (q(l), b(c), q(r), q(k)) for l, c, r, k in t["dispatch"]),
+               lst(map(q, t["numeric"])), q(t["then"]), q(t["else"]), lst(map(q, t["no_tipe"])), lst(map(q, t["with_tipe"])),
+               lst("(%s, %d, %s)" % (q(n), i, q(d)) for n, i, d in t["source_args"]),
+               lst("(%s, %d, %s)" % (q(n), i, q(d)) for n, i, d in t["xy_args"]),
+               lst("(%s, %s, %s)" % (q(a), q(c), lst(map(q, xs))) for a, c, xs in t["joins"]),
+               lst("(%s, %s)" % (q(k), q(v)) for k, v in t["yields"])))
+
+
+SUPERVISED_FALLBACK = ("namespace Coba.Generated.C14\ndef extracted : Bool := false\n"
+                       "def dispatch : List (String × Bool × String × String) := []\ndef inferNumeric : List String := []\n"
+                       "def inferThen : String := \"\"\ndef inferElse : String := \"\"\ndef sourcesNoTipe : List String := []\n"
+                       "def sourcesTipe : List String := []\ndef sourceArgs : List (String × Nat × String) := []\n"
+                       "def xyArgs : List (String × Nat × String) := []\ndef joins : List (String × String × List String) := []\n"
+                       "def yields : List (String × String) := []\nend Coba.Generated.C14\n")
+
+
 class C14(Property):
     id = "C14"
     prop_modules = ["CobaVerif.Props.C14"]
@@ -1620,6 +1877,7 @@ class C14(Property):
         "the lazy context object (C13's DRow model: plain list / HeadDense under LabelDense.feats = DropOne) is evaluated by the driver for list-backed tables (CSV, ListSource rows) without take and compared on iteration, len, ctx[j], ctx[name]; ARFF rows (LazyDense) and sparse rows are compared through the C14-level featureByName / context checks only",
         "action order: (A) compares action lists as multisets; that the order is fixed is decided by (B) (same list in every interaction, on both reads, for reversed and shuffled examples, and - 2% of the cases - in a fresh interpreter with another hash seed); agreement with the modelled order (ascending / declared levels) is counted in the tag action-order:as-modelled",
         "ARFF numeric tokens are converted by the model only when they are exact decimals (the writer emits small integers and dyadic fractions); float(token) in general is CPython's",
+        "translator step (pre_build): the argument tables of SupervisedSimulation.__init__, the label-type sources / inference rule and the reward / action dispatch of SupervisedSimulation.read are read off the source under test with Python's ast (the if-chain is walked symbolically for every label-type literal x kind of first label; nothing is imported or run) and written to Generated/C14Supervised.lean; theorem supervised_source_as_modelled proves them equal to the model's tables; the extractor itself is trusted (its output is also compared with the driver's tables at run time, corpus case src=tables)",
         "float arithmetic: generated numbers are small integers or dyadic rationals with few bits, so -|a-y| is exact in doubles; Jaccard values are compared as the double nearest to the model's rational",
     ]
     assumptions = [
@@ -1629,10 +1887,34 @@ class C14(Property):
         "'the distinct labels of the data' of a simulation with take are read as the labels of the sampled examples (the simulation's own examples): that is what the code computes and what take_sample_spec states",
         "regression from CSV / LibSVM / Manik text is not generated: these readers deliver labels as strings / lists of strings",
     ]
-    partial_theorems = {"Coba.C14.end_to_end_arff_file_sparse_under": "sparse whole-file ARFF is proved under the named hypothesis SparseFileRoundTrip (what C12.arffRead returns for the file): C12 has the sparse round trip per data line only; the hypothesis is shown satisfiable on a concrete file and the pipeline is compared with the real reader on every generated sparse file",
+    partial_theorems = {"Coba.C14.end_to_end_arff_file_sparse_under": "kept from phase 4 (stated under the named hypothesis SparseFileRoundTrip); since phase 5 the hypothesis is discharged for every whole sparse file of the canonical writer by sparse_file_roundtrip / sparse_file_roundtrip_relation (C12's arff_sparse_table_roundtrip), and end_to_end_arff_file_sparse / end_to_end_arff_sparse_xy state the result without it",
+                        "Coba.C14.end_to_end_arff_file_sparse": "carries the hypotheses of C12's arff_sparse_table_roundtrip (forced by C12-F8/F9/F10/F12/F13: header tokens, bare sparse values, cells that fit their column)",
                         "Coba.C14.end_to_end_arff_file_dense": "carries the hypotheses of C12's arff_dense_table_roundtrip (forced by C12-F8/F9/F11/F12/F13/F15/F17)",
                         "Coba.C14.end_to_end_arff_dense": "carries C12's forced hypotheses (AttrW.ok: C12-F8/F9, arffRowOk: C12-F11) and covers the reader's simple path with header lines and data lines given separately; sparse ARFF has no end-to-end theorem (C12 proves the sparse round trip per row only)",
                         "Coba.C14.end_to_end_arff_dense_xy_partial": "ARFF = (X,Y) form only for dense files inside C12's AttrW.ok / arffRowOk with header and data lines handed over separately (no whole-file arffRead round trip in C12); sparse data lines not proved (C12 has the row-level arff_sparse_roundtrip_partial only, not sparseRows over a file)"}
+
+    def pre_build(self):
+        """translator step: the argument tables of `SupervisedSimulation.__init__`, the label-type sources / inference rule and the
+        reward / action dispatch of `SupervisedSimulation.read`, read off the CURRENT source with `ast` and written to
+        lean/CobaVerif/Generated/C14Supervised.lean; `supervised_source_as_modelled` (Props/C14.lean) proves them equal to the
+        tables the model assumes (Model/C14: dispatchTable, inferNumericTypes, typeSources, ctorSourceArgs, ctorXYArgs, pipelineJoins, yieldTable)"""
+        repo = os.environ.get("COBA_REPO", "/repo")
+        try:
+            t = extract_supervised(repo)
+            body = supervised_lean(t)
+            notes = ["SupervisedSimulation extracted: %d dispatch rows, inference %s -> %r else %r, sources %s / %s, %d+%d constructor arguments, joins %s"
+                     % (len(t["dispatch"]), t["numeric"], t["then"], t["else"], t["no_tipe"], t["with_tipe"], len(t["source_args"]), len(t["xy_args"]),
+                        [j[1] for j in t["joins"]])]
+        except Exception as e:  # noqa: BLE001
+            body = ("-- GENERATED: SupervisedSimulation could not be extracted (%s)\n" % str(e).replace("\n", " ")[:150]) + SUPERVISED_FALLBACK
+            notes = ["SupervisedSimulation could NOT be extracted (%s): supervised_source_as_modelled fails" % e]
+        path = os.path.join(lean.LEAN_DIR, "CobaVerif", "Generated", "C14Supervised.lean")
+        old = open(path, encoding="utf-8").read() if os.path.exists(path) else None
+        if old != body:
+            os.makedirs(os.path.dirname(path), exist_ok=True)
+            with open(path, "w", encoding="utf-8") as f:
+                f.write(body)
+        return notes
 
     def corpus(self):
         cat = lambda s, L: {"cat": s, "levels": L}
@@ -1728,6 +2010,21 @@ class C14(Property):
         cs_.append(dict(base, src="xy", via="env", label_type="c", rows=xs, xy_as=["iter", "iter"], abandon=1))
         cs_.append(dict(base, src="xy", label_type=None, rows=[[t(1), cat("y", ["y", "x"])], [t(2), cat("x", ["y", "x"])]], xy_as=["map", "map"]))
         cs_.append(dict(base, src="xy", label_type="c", rows=xs, abandon=1))
+        # phase 5: the dispatch of read() for every label-type literal (either case) x kind of first label, positional and keyword,
+        # and the tables the model assumes about the constructor / read() against the source under test
+        nums = [[t(1), ci(3)], [t(2), cf([1, 2])], [t(3), ci(-2)]]
+        sets = [[t(1), {"l": [cs("a"), cs("b")]}], [t(2), {"l": [cs("b")]}], [t(3), {"l": []}]]
+        cats = [[t(1), cat("y", ["z", "y", "x"])], [t(2), cat("x", ["z", "y", "x"])], [t(3), cat("y", ["z", "y", "x"])]]
+        for lit, rows_ in (("r", nums), ("R", nums), ("c", nums), ("C", nums), ("m", sets), ("M", sets), ("c", cats), ("C", cats), (None, nums), (None, cats),
+                           (None, [[t(1), cf([1, 2])], [t(2), ci(1)]]), (None, [[t(1), {"b": True}], [t(2), {"b": False}]])):
+            for kw in (False, True):
+                cs_.append(dict(base, src="xy", kw=kw, label_type=lit, rows=rows_))
+        # the source overload called with 1, 2, 3, 4 positional arguments and source + keywords
+        tab = [[ci(1), cs("a"), ci(5)], [ci(2), cs("b"), ci(6)], [ci(3), cs("a"), ci(7)], [ci(4), cs("c"), ci(8)]]
+        for pm in ("short", "mixed", None):
+            for lc_, lt_, tk in ((1, None, None), (1, "c", None), (2, "c", None), (2, "r", None), (2, None, 2), (1, "C", 3), (0, "R", None)):
+                cs_.append(dict(base, src="rows", sparse=False, label_col=lc_, label_type=lt_, take=tk, rows=tab, **({"pos_min": pm} if pm else {})))
+        cs_.append({"src": "tables", "rows": [], "via": "sim", "kw": False})
         for c in cs_:
             c.setdefault("take", None)
         return cs_
@@ -1767,9 +2064,34 @@ class C14(Property):
         return gen_case(rng, tier, edge_p=0.0)
 
     # ---- evaluation
+    def evaluate_tables(self, case, driver):
+        """the tables the model assumes about SupervisedSimulation.__init__ / .read (as the driver holds them) against the ones
+        read off the source under test (the run-time twin of theorem supervised_source_as_modelled), and - statement level - the
+        constructor's defaults observed on the real code: leaving out label_col / label_type / take is giving None"""
+        fails, tags = [], ["src:tables"]
+        repo = os.environ.get("COBA_REPO", "/repo")
+        try:
+            t = extract_supervised(repo)
+        except Exception as e:  # noqa: BLE001
+            t = None
+            fails.append(F("A", "SupervisedSimulation could not be read off the source: %s" % e, "A:source-tables:extract"))
+        if driver is not None and t is not None:
+            m = driver.ask({"op": "tables"})["tables"]
+            mine = {"dispatch": [list(r) for r in t["dispatch"]], "numeric": t["numeric"], "no_tipe": t["no_tipe"], "with_tipe": t["with_tipe"],
+                    "source_args": [list(r) for r in t["source_args"]], "xy_args": [list(r) for r in t["xy_args"]],
+                    "joins": [[a, c, list(xs)] for a, c, xs in t["joins"]], "yields": [list(r) for r in t["yields"]]}
+            for k in sorted(mine):
+                tags.append("tables:" + k)
+                if mine[k] != m.get(k):
+                    fails.append(F("A", "SupervisedSimulation %s: the source has %s, the model assumes %s" % (k, short(mine[k]), short(m.get(k))), "A:source-tables:" + k))
+                    break
+        return {"fails": fails, "nontrivial": False, "tags": tags, "impl": None, "model": None}
+
     def evaluate(self, case, driver):
         fails, tags = [], []
         src = case["src"]
+        if src == "tables":
+            return self.evaluate_tables(case, driver)
         exp = expectation(case)
         prng = Rng(json.dumps(case, sort_keys=True), "probes")
         probes = make_probes(case, exp, prng)
@@ -1842,6 +2164,16 @@ class C14(Property):
             tags.append("edge:" + case.get("edge_kind", "?"))
         if case.get("file"):
             tags.append("file")
+        if src == "sarff" and not case.get("edge"):
+            # the writer's sparse files: `@relation` line, attribute lines with distinct bare names / distinct levels (none is '0'),
+            # `@data`, one `{i v,...}` line per row with bare values - the files of sparse_file_roundtrip_relation
+            tags.append("sarff:file-of-end_to_end_arff_file_sparse" + (":take" if case.get("take") is not None else ""))
+        if src == "arff" and not case.get("edge") and case.get("take") is not None and case.get("pre") is None:
+            tags.append("arff:file-of-end_to_end_arff_file_dense_take")
+        if src != "xy":
+            tags.append("call:" + ("keyword" if case.get("kw") else "positional-" + (case.get("pos_min") or "all-four")))
+        if case.get("label_type") in LT_LITERALS:
+            tags.append("label-type-literal:" + ("upper" if case["label_type"].isupper() else "lower"))
         if case.get("pre") is not None:
             t, g = case["pre"].get("tipe"), case.get("label_type")
             tags.append("pre:%s" % ("same" if (t or "").lower() == (g or "").lower() else "tipe-only" if g is None else "given-only" if t is None else "conflict:%s>%s" % (t.lower(), g.lower())))
@@ -1976,6 +2308,8 @@ class C14(Property):
             c = dict(case)
             c.pop("explicit_none")
             yield c
+        if case.get("pos_min"):
+            yield {k: v for k, v in case.items() if k != "pos_min"}
         if case.get("abandon"):
             yield dict(case, abandon=0)
         if case.get("xy_as") and case["xy_as"] != ["list", "list"]:
